@@ -455,8 +455,10 @@ Section PeriodSpec.
       Forall2 (window_assignment init) (sort_coords cells) relabelled /\
       map_result (window_cell wavg rules nl prem) (groupby coord_eqb coord3 relabelled) = Ok out.
   Proof.
-    unfold aggregate_period. pose proof (sort_coords_ps_nondecr cells) as Hs.
-    destruct (sort_coords cells) as [|c0 rest] eqn:Esort; [discriminate|].
+    unfold aggregate_period. destruct cells as [|x xs].
+    { intros H. inversion H. exists origin, []. split; [exists O; now left|]. split; [constructor | reflexivity]. }
+    pose proof (sort_coords_ps_nondecr (x :: xs)) as Hs.
+    destruct (sort_coords (x :: xs)) as [|c0 rest] eqn:Esort; [discriminate|].
     set (fuel := walk_fuel origin (ps c0) (zmax_list (ps c0) (map ps (c0 :: rest)))).
     destruct (align_spec _ _ step_up back_down step_back fuel origin (ps c0) (walk_fuel_enough _ _ _))
       as (init & n & Ea & Orb & A & B).
@@ -466,23 +468,23 @@ Section PeriodSpec.
     intros c [<-|Hc]; [exact A|]. pose proof (ps_nondecr_head _ _ Hs c Hc). lia.
   Qed.
 
-  (* where an error of _aggregate_period can come from: the empty slice (IndexError), a period
-     reaching beyond its window (TriangleError), summarising a group, or -- model only -- fuel
+  (* where an error of _aggregate_period can come from (an empty slice is returned unchanged): a
+     period reaching beyond its window (TriangleError), summarising a group, or -- model only -- fuel
      exhaustion in the per-cell advance loop (the alignment loops provably never exhaust it) *)
   Theorem aggregate_period_errors origin prem cells e :
     aggregate_period wavg rules nl (Some r) origin prem cells = Err e ->
-    (e = IndexError /\ cells = []) \/ e = TriangleError \/ e = OtherError \/
+    e = TriangleError \/ e = OtherError \/
     (exists relabelled, map_result (window_cell wavg rules nl prem) (groupby coord_eqb coord3 relabelled) = Err e).
   Proof.
-    unfold aggregate_period. destruct (sort_coords cells) as [|c0 rest] eqn:Esort.
-    - intros H. inversion H. left. split; [reflexivity|]. destruct cells as [|x l]; [reflexivity|].
-      exfalso. assert (In x (sort_coords (x :: l))) as Hx by (apply sort_coords_In; now left).
+    unfold aggregate_period. destruct cells as [|x l]; [discriminate|].
+    destruct (sort_coords (x :: l)) as [|c0 rest] eqn:Esort.
+    - exfalso. assert (In x (sort_coords (x :: l))) as Hx by (apply sort_coords_In; now left).
       rewrite Esort in Hx. destruct Hx.
     - set (fuel := walk_fuel origin (ps c0) (zmax_list (ps c0) (map ps (c0 :: rest)))).
       destruct (align_spec _ _ step_up back_down step_back fuel origin (ps c0) (walk_fuel_enough _ _ _))
         as (init & n & Ea & _). rewrite Ea.
       destruct (relabel (delta r false) fuel init (c0 :: rest)) as [relabelled|e'] eqn:Er.
-      + intros H. right. right. right. eauto.
+      + intros H. right. right. eauto.
       + intros H. inversion H. subst e'. destruct (relabel_err _ _ _ _ _ Er) as [->| ->]; auto.
   Qed.
 End PeriodSpec.
@@ -498,6 +500,11 @@ Proof.
   destruct (to_cumulative std_desc t) as [cum|e] eqn:Ec; cbn [bind]; [|now left].
   destruct (is_incremental cum) eqn:Ei; [right; eauto|]. left. unfold aggregate. now rewrite Ei.
 Qed.
+Theorem aggregate_period_empty wavg rules nl r origin prem :
+  aggregate_period wavg rules nl r origin prem [] = Ok [].
+Proof. destruct r; reflexivity. Qed.
+Theorem aggregate_empty wavg rules nl a : aggregate wavg rules nl a [] = Ok [].
+Proof. reflexivity. Qed.
 Theorem aggregate_eval_only wavg rules nl a slice :
   period_res a = None ->
   aggregate_slice wavg rules nl a slice = aggregate_eval (eval_res a) (eval_origin a) slice.
